@@ -6,10 +6,21 @@ package yield
 import (
 	"math/rand"
 	"sync"
+	"sync/atomic"
 	"time"
 
 	"github.com/DrmagicE/gmqtt/server"
 )
+
+var observer atomic.Value // func(site string)
+
+// Observe installs a function that is told about every site hit (nil removes it).
+func Observe(f func(site string)) {
+	if f == nil {
+		f = func(string) {}
+	}
+	observer.Store(f)
+}
 
 var (
 	mu    sync.Mutex
@@ -28,6 +39,9 @@ func Enable(seed int64, heavy bool) {
 	}
 	mu.Unlock()
 	server.SetVerifYield(func(site string) {
+		if f, ok := observer.Load().(func(string)); ok {
+			f(site)
+		}
 		mu.Lock()
 		hits[site]++
 		x := rng.Intn(100)
